@@ -2,6 +2,7 @@
 use vf_engine::Check;
 
 mod c10;
+mod c13;
 
 fn main() {
     let args: Vec<String> = std::env::args().skip(1).collect();
@@ -9,6 +10,7 @@ fn main() {
     let mut ck = Check::from_env(&id, &args[1.min(args.len())..]);
     match id.as_str() {
         "C10" => c10::run(&mut ck),
+        "C13" => c13::run(&mut ck),
         _ => {
             eprintln!("vf-core: unknown property {id}");
             std::process::exit(2);
